@@ -223,6 +223,16 @@ func (i *interpreter) symBinop(op token.Token, t types.Type, x, y value) value {
 	case token.SUB:
 		return mkval(c.Sub(a, b), kx)
 	case token.MUL:
+		if i.mulBack != nil && a.W == 64 {
+			for k, x := range [2]*smt.Term{a, b} {
+				y := [2]*smt.Term{b, a}[k]
+				if y.IsConst() && y.Big == nil && !x.IsConst() {
+					if t, ok := i.mulBack[divKey{x.ID, y.Val}]; ok {
+						return mkval(t, kx)
+					}
+				}
+			}
+		}
 		return mkval(c.Mul(a, b), kx)
 	case token.QUO, token.REM:
 		// division by zero panics
